@@ -6,7 +6,7 @@ import contracts.pulse as P
 import contracts.general as G
 import contracts.standins_pulse as B
 
-PROVED = [P.record_links, P.zero_out_of_bounds, P.cut_baseline, G.overlap_indices]
+PROVED = [P.record_links, P.zero_out_of_bounds, P.cut_baseline, G.overlap_indices, P.cut_outside_hits_core]
 
 PROPERTY = Property(
     "C18", "proof",
@@ -20,9 +20,15 @@ PROPERTY = Property(
     trusted=["pyvc VC generator and value model", "z3 5.1.0 / cvc5 1.4.0",
              "library models of np.ones/np.zeros/ndarray.max/slice stores"],
     assumptions=["A1 integers are mathematical (int16 samples, int32 indices)", "A2 numba compiles the Python source faithfully",
-                 "find_hits, cut_outside_hits, baseline and integrate are NOT proved: bounded stand-ins only (buffer-yield "
-                 "mechanics of growing_result, float arithmetic)"],
+                 "find_hits, baseline and integrate are NOT proved: bounded stand-ins only (buffer-yield "
+                 "mechanics of growing_result, float arithmetic); of cut_outside_hits the kernel _cut_outside_hits is proved (modularly over the proved "
+                 "contracts of record_links and overlap_indices), the wrapper (blank copy with the metadata, HITS_ONLY mark) is covered by the bounded stand-in",
+                 "_cut_outside_hits: 'covered by one of the first k hits' is a ghost predicate defined by its unfolding axioms; the links are ghost "
+                 "functions constrained by record_links' proved postcondition (which determines them uniquely); premise: every hit lies inside the valid "
+                 "samples of the record it names (what find_hits produces), extensions are non-negative"],
     explanation="record linking (exactly the time-adjacent fragments of one pulse in one channel; next is the inverse of previous), "
-                "zero_out_of_bounds and cut_baseline (exactly the stated samples zeroed, metadata frame) and overlap_indices are proved "
-                "for all inputs; hit finding, hit-based reduction, baselining and integration are bounded stand-ins",
+                "zero_out_of_bounds and cut_baseline (exactly the stated samples zeroed, metadata frame), overlap_indices and the reduction kernel "
+                "_cut_outside_hits (a sample survives exactly if it lies within the extensions of a hit, in the hit's record or continuing into the linked "
+                "previous / next fragment; everything else is zero; metadata untouched) are proved "
+                "for all inputs; hit finding, the reduction wrapper, baselining and integration are bounded stand-ins",
 )
